@@ -188,6 +188,17 @@ int Simulate65816::run(int max_cycles, int step)
     int cycles_min, cycles_max;
     int opcode = READ_RAM(pc);
 
+    // The length comes from the bytes as they are before the instruction
+    // runs: a store may overwrite the instruction itself.
+    const int instruction_length = disasm_65816(
+      memory,
+      pc,
+      instruction,
+      sizeof(instruction),
+      0,
+      &cycles_min,
+      &cycles_max);
+
     int ret = operand_exe(opcode);
 
     // stop simulation on BRK instruction
@@ -197,14 +208,7 @@ int Simulate65816::run(int max_cycles, int step)
     // only increment if reg_pc not touched
     if (ret == 0)
     {
-      reg_pc += disasm_65816(
-        memory,
-        pc,
-        instruction,
-        sizeof(instruction),
-        0,
-        &cycles_min,
-        &cycles_max);
+      reg_pc += instruction_length;
     }
 
     if (show == true)
